@@ -1,8 +1,10 @@
 import GeoVerif.Series.GeodSeries
+import GeoVerif.Series.GeodTrig
 import GeoVerif.Model.Clenshaw
 import GeoVerif.Spec.RealInst
 import Mathlib.Tactic.Ring
 import Mathlib.Tactic.Linarith
+import Mathlib.Tactic.FieldSimp
 /-!
 # C01 — direct geodesic problem: table certificates and the Clenshaw theorem
 -/
@@ -25,6 +27,71 @@ theorem c1_table : ((List.range N).all fun i => checkC1 (i + 1)) = true := by de
 theorem a2_table : checkA2 = true := by decide +kernel
 
 theorem c2_table : ((List.range N).all fun i => checkC2 (i + 1)) = true := by decide +kernel
+
+/-! ### the reverted series C1′ (table `C1pf`)
+
+Trigonometric polynomials in `φ = 2σ` with coefficients in `ℚ[ε]/ε^{N+1}` (`Series/Trig.lean`: exact product-to-sum
+multiplication, no truncation of harmonics). -/
+
+/-- the trigonometric-series CAS reproduces textbook identities (Pythagoras, Chebyshev `cos 3φ`, a product-to-sum case,
+    the product rule, `sin(φ + ε)` and a first-order Taylor shift) -/
+theorem trig_cas_selftest : trigSelfTest = true := by decide +kernel
+
+/-- **C1′ reverts C1** (Karney 2013, eq. 20–21).  With `τ = σ + B1(2σ)`, `B1(φ) = Σ_{l=1}^{N} C1_l sin lφ`, and
+    `σ = τ + B1′(2τ)`, `B1′(φ) = Σ_{l=1}^{N} C1′_l sin lφ`, the composition is the identity modulo `ε^{N+1}`:
+    `B1(φ) + Σ_{k=0}^{N} (2·B1(φ))^k/k! · (d/dφ)^k B1′(φ) = 0` in `(ℚ[ε]/ε^{N+1})[cos φ, sin φ]`
+    (the Taylor series of `B1′(φ + 2 B1(φ))`; terms `k > N` vanish because `B1 = O(ε)`).
+    The map `f(φ) ↦ f(φ + 2 B1(φ))` is an automorphism of that ring, so this relation determines every `C1′_l`
+    modulo `ε^{N+1}` from the `C1_l`, which `c1_table` ties to the integrand of I1: a full certificate of the
+    `C1pf` table (all its entries lie below `ε^{N+1}`). -/
+theorem c1p_reverts_c1 : checkC1p = true := by decide +kernel
+
+/-! ### I3: the tables `A3coeff`, `C3coeff` (bivariate in `n`, `ε`) -/
+
+/-- `(1 − ε)²(1 + k² sin²σ) = 1 − 2ε cos 2σ + ε²` for `k² = 4ε/(1 − ε)²`: the `W²` of `w_series` is `(1 − ε)²` times the radicand -/
+theorem k2_form (ε σ : ℝ) (hε : 1 - ε ≠ 0) :
+    (1 - ε)^2 * (1 + 4 * ε / (1 - ε)^2 * sin σ ^ 2) = 1 - 2 * ε * cos (2 * σ) + ε^2 := by
+  rw [cos_two_mul, cos_sq']
+  field_simp
+  ring
+
+/-- the I3 integrand with `f = 2n/(1 + n)`, `w = √(1 + k² sin²σ)`, `W = (1 − ε) w`, in the form certified by `a3_c3_table` -/
+theorem i3_integrand_form (n ε w : ℝ) (hn : 1 + n ≠ 0) (hε : 1 - ε ≠ 0) (hd : (1 + n) + (1 - n) * w ≠ 0) :
+    (2 - 2 * n / (1 + n)) / (1 + (1 - 2 * n / (1 + n)) * w) =
+      2 * (1 - ε) / ((1 + n) * (1 - ε) + (1 - n) * ((1 - ε) * w)) := by
+  have h1 : 1 + (1 - 2 * n / (1 + n)) * w = ((1 + n) + (1 - n) * w) / (1 + n) := by field_simp; ring
+  have h2 : (1 + n) * (1 - ε) + (1 - n) * ((1 - ε) * w) = (1 - ε) * ((1 + n) + (1 - n) * w) := by ring
+  rw [h1, h2]
+  field_simp
+  ring
+
+example : (1 + (1/10 : ℝ) ≠ 0) ∧ (1 - (1/10 : ℝ) ≠ 0) ∧ ((1 + (1/10 : ℝ)) + (1 - 1/10) * 1 ≠ 0) := by norm_num
+
+/-- the layouts of `A3coeff`/`A3f` and `C3coeff`/`C3f` consume the tables exactly -/
+theorem table_sizes3 : a3Size = Gen.GeodSeries.A3coeff.length ∧ c3Size = Gen.GeodSeries.C3coeff.length := by decide +kernel
+
+/-- `W = (1 − ε)√(1 + k² sin²σ)`, `k² = 4ε/(1 − ε)²`, has the cosine series used below: `W² = 1 − 2ε cos 2σ + ε²`
+    (mod `ε^{N+1}`) and `W = 1 + O(ε)` — this is a statement about binomial coefficients only (no table) -/
+theorem w_series : checkW (N + 1) = true := by decide +kernel
+
+/-- **A3** (Karney 2013, eq. 8, 23–24; `computeI3` of `maxima/geod.mac`).  With `f = 2n/(1 + n)` the integrand of I3 is
+    `(2 − f)/(1 + (1 − f)√(1 + k² sin²σ)) = 2(1 − ε)/D`, `D = (1 + n)(1 − ε) + (1 − n) W` (`i3_integrand_form`, `k2_form`).
+    It is expanded directly: `D = 2(1 + u)`, `u = O(n, ε)`, `2(1 − ε)/D = (1 − ε) Σ_{k<N} (−u)^k` as a trigonometric polynomial
+    in `2σ` with coefficients in `ℚ[n, ε]` modulo total degree `N` — the truncation `jtaylor(·, n, eps, N−1)` of the generator.
+    Certified: the polynomial `A3(n, ε)` of `A3coeff`/`A3f` **is** the mean value (constant Fourier coefficient) of that
+    expansion.  Full certificate of the table (all its entries have total degree `≤ N − 1`). -/
+theorem a3_table : checkA3 = true := by decide +kernel
+
+/-- **C3** (Karney 2013, eq. 25).  `dI3/dσ = A3·(1 + Σ_{l=1}^{N−1} 2l·C3_l cos 2lσ)`.  Certified: for every `l = 1 … N−1`,
+    `2l·A3·C3_l` (tables `A3coeff`, `C3coeff`, layout of `C3f`) equals the coefficient of `cos 2lσ` of the expansion of
+    `a3_table`, modulo total degree `N`, and the expansion has no further harmonics.  Since `A3 = 1 + …` is a unit and is
+    itself certified, this determines every `C3_l` modulo total degree `N`: full certificate of the table. -/
+theorem c3_table : checkC3 = true := by decide +kernel
+
+/-- second, independent route to the same two tables (no series division): multiplying out the denominator,
+    `A3·(1 + Σ_l 2l C3_l cos 2lσ) · ((1 + n)(1 − ε) + (1 − n) W) = 2(1 − ε)` modulo total degree `N`.
+    The second factor has constant term 2, hence is a unit, so this relation alone also determines both tables. -/
+theorem a3_c3_relation : checkA3C3 = true := by decide +kernel
 
 /-! ### Clenshaw summation computes the trigonometric sums it stands for -/
 
